@@ -123,6 +123,15 @@ def gate_pred(gate, part, m=2, neg=False):
     return (part_index(part) % m == 0) != neg
 
 
+def quality_pred(gate, part, q=2, neg=False):
+    """Gate on the part's (mutable) state: quality reached q. The complementary gate has neg=True."""
+    return (part.quality >= q) != neg
+
+
+def add_quality_cb(m, p):
+    p.quality += m.qadd
+
+
 class Model:
     def __init__(self, spec, weights):
         self.spec = spec
@@ -156,6 +165,9 @@ class Model:
             self.D[g['n']] = Group(g['n'], [self.D[d['n']] for d in g['devs']], **kw)
         for d in spec['devs']:
             self.mk(d)
+        for (frm, to) in spec.get('loops', []):
+            # documented rework loop: a gate leads back into an earlier buffer
+            self.D[to].set_upstream(self.D[to].upstream + [self.D[frm]])
         for a in spec.get('actions', []):
             self.sched(a)
 
@@ -182,6 +194,9 @@ class Model:
             if d.get('rvaladd'):
                 o.rvaladd = d['rvaladd']
                 o.add_receive_part_callback(recv_value_cb)
+            if d.get('qadd'):
+                o.qadd = d['qadd']
+                o.add_finish_processing_callback(add_quality_cb)
         elif k == 'H':
             o = PartHandler(d['n'], up, d['c'])
             if d.get('rvaladd'):
@@ -198,7 +213,10 @@ class Model:
             o = PartBatcher(d['n'], up, output_batch_size=d['size'])
         elif k == 'G':
             from functools import partial
-            o = DecisionGate(d['n'], up, partial(gate_pred, m=d['mod'], neg=d['neg']))
+            if 'q' in d:
+                o = DecisionGate(d['n'], up, partial(quality_pred, q=d['q'], neg=d['neg']))
+            else:
+                o = DecisionGate(d['n'], up, partial(gate_pred, m=d['mod'], neg=d['neg']))
         elif k == 'GP':
             o = self.D[d['g']].get_new_group_path(d['n'], up)
         elif k == 'K':
